@@ -139,6 +139,7 @@ func (w *world) wrongHash(i uint32) hash.Hash {
 // sampleState records which pieces are complete right now; called at every
 // scheduling point (serialised, so plain reads are fine) and around reads.
 func (w *world) sampleState() {
+	w.seq++
 	n := len(w.ps.pieces)
 	comp := make([]bool, n)
 	changed := false
@@ -216,19 +217,25 @@ type op struct {
 	run  func(w *world, r *opRec)
 }
 
+// The clock (w.seq) advances at every sample, i.e. at every scheduling point
+// and at every operation boundary, so an operation's [call, ret] interval
+// contains exactly the samples taken while it was in progress.
 func (w *world) exec(thread string, o op) {
-	w.seq++
-	r := &opRec{thread: thread, op: o.name, call: w.seq}
+	r := &opRec{thread: thread, op: o.name}
 	w.log = append(w.log, r)
 	if sched.Controlled() {
 		sched.Quiet(w.sampleState)
+	} else {
+		w.seq++
 	}
+	r.call = w.seq
 	o.run(w, r)
-	w.seq++
-	r.ret = w.seq
 	if sched.Controlled() {
 		sched.Quiet(w.sampleState)
+	} else {
+		w.seq++
 	}
+	r.ret = w.seq
 }
 
 func opAdd(name string, i, begin uint32, data func(w *world) []byte) op {
@@ -792,7 +799,20 @@ func TestVerifStore(t *testing.T) {
 				t.Errorf("HARNESS NONDETERMINISM: %s on %v choices %v: %s", k, p, v.Choices, txt)
 				continue
 			}
-			res[propOf(k)].Violate(k, fmt.Sprintf("%s  [program %s, schedule %v]", txt, p.String(), v.Choices), rp)
+			where := fmt.Sprintf("  [program %s, schedule %v]", p.String(), v.Choices)
+			if !strings.Contains(v.Message, "\x00") {
+				// panic / deadlock / livelock / horizon: the store crashed or
+				// hung; that is a violation of both properties' "never
+				// crashes / process survival" clauses
+				res["C03"].Violate(k, txt+where, rp)
+				res["C01"].Violate(k, txt+where, rp)
+				continue
+			}
+			// every problem of the execution is attributed to its own property
+			for _, pr := range strings.Split(v.Message, "\x01") {
+				pk, pt, _ := strings.Cut(pr, "\x00")
+				res[propOf(pk)].Violate(pk, pt+where, rp)
+			}
 		}
 	}
 	vtime.ClearVirtual()
